@@ -68,3 +68,60 @@ Section I.
   Definition insert_spec_b (A B A' : agraph) mp p wrapped extra : bool :=
     insert_iso_b A B A' mp p wrapped extra && insert_frame_b A B A' mp p extra.
 End I.
+
+(* The wires a builder wrapper (insert_nested / insert_cfg / insert_conditional / insert_tail_loop) attaches to the
+   image r' of B's root, which hangs under p.  Stated on the graph A as it was BEFORE the call:
+   - wire i ends in r'.inp(i): one link per wire, offsets 0, 1, ...;
+   - a wire whose source s is a child of p (a sibling of r') brings nothing else;
+   - a wire from an enclosing region (s is a child of a proper ancestor q of p) is an inter-graph edge and is
+     accompanied by the state order link s -> a, where a is the ancestor-or-self of p that is a child of q
+     (the sibling of s below which the wire enters); that link is a SET element: it is added once however many
+     wires ask for it and not at all when A already has it;
+   - a source that is neither (no ancestor of p is its sibling, or it is the root) is outside the guard
+     (the builder raises NoSiblingAncestor). *)
+Fixpoint wire_links (node : nid) (i : Z) (ws : list port) : list (port * port) :=
+  match ws with [] => [] | w :: r => (w, (node, i)) :: wire_links node (i + 1) r end.
+(* first occurrences only *)
+Fixpoint dedup {X} (eqb : X -> X -> bool) (l : list X) : list X :=
+  match l with [] => [] | x :: r => x :: filter (fun y => negb (eqb y x)) (dedup eqb r) end.
+
+Section W.
+  Context {Op Meta : Type}.
+  Notation agraph := (agraph Op Meta).
+  Notation aget := (dget Nat.eqb).
+
+  (* the ancestor-or-self of t whose parent is sp (fuel: the number of nodes; the walk visits each at most once) *)
+  Fixpoint sibling_ancestor (fuel : nat) (A : agraph) (sp t : nid) : option nid :=
+    match fuel with
+    | 0 => None
+    | S f => match aget (a_nodes A) t with
+             | Some d => match a_parent d with
+                         | Some tp => if Nat.eqb tp sp then Some t else sibling_ancestor f A sp tp
+                         | None => None
+                         end
+             | None => None
+             end
+    end.
+  (* None: outside the guard; Some None: a sibling of the inserted root; Some (Some a): from an enclosing region,
+     entering below a *)
+  Definition wire_anchor (A : agraph) (p s : nid) : option (option nid) :=
+    match aget (a_nodes A) s with
+    | Some ds => match a_parent ds with
+                 | Some sp => if Nat.eqb sp p then Some None
+                              else option_map Some (sibling_ancestor (length (a_nodes A)) A sp p)
+                 | None => None
+                 end
+    | None => None
+    end.
+  Definition wires_guard (A : agraph) (p : nid) (ws : list port) : bool :=
+    forallb (fun w => match wire_anchor A p (fst w) with Some _ => Z.leb (-1) (snd w) | None => false end) ws.
+  Definition order_of_wire (A : agraph) (p : nid) (w : port) : list (port * port) :=
+    match wire_anchor A p (fst w) with
+    | Some (Some a) => [((fst w, (-1)%Z), (a, (-1)%Z))]
+    | _ => []
+    end.
+  Definition wires_order (A : agraph) (p : nid) (ws : list port) : list (port * port) :=
+    filter (fun l => negb (mem link_eqb l (a_links A))) (dedup link_eqb (flat_map (order_of_wire A p) ws)).
+  Definition wires_extra (A : agraph) (p r' : nid) (ws : list port) : list (port * port) :=
+    wire_links r' 0 ws ++ wires_order A p ws.
+End W.
